@@ -31,14 +31,19 @@ NSMAP = {'t': G.TNS, 'xs': G.XS}
 def gen_case(rng, tier):
     thorough = tier == 'thorough'
     spec = G.gen_schema_spec(rng, 8)
-    xml, facts = G.gen_instance(rng, spec)
     ntrees = rng.randint(1, 3)
     trees = [rng.choice(FORMS) for _ in range(ntrees)]
+    if spec.get('xsi') and rng.random() < 0.5:
+        trees = [rng.choice([f for f in FORMS if 'lxml' in f]) for _ in range(ntrees)]
+    # ElementTree keeps no prefix declarations: there the prefix of an xsi:type value must be one that the
+    # `namespaces` argument declares; lxml trees resolve a prefix declared on the element itself
+    spec['xsi_prefix'] = 'd' if all('lxml' in f for f in trees) else 'xs'
+    xml, facts = G.gen_instance(rng, spec)
     nops = rng.randint(2, 20 if thorough else 10)
     ops = []
     for _ in range(nops):
         op = {'op': 'eval', 'tree': rng.randrange(ntrees), 'schema': rng.choice(['A', 'A', 'A', 'B', None]),
-              'via': rng.choice(['select', 'select', 'selector'])}
+              'via': rng.choice(['select', 'select', 'selector', 'selector-iter'])}
         x = rng.random()
         if facts and x < 0.4:
             op['expr'] = {'kind': 'data', 'fact': rng.randrange(len(facts))}
@@ -70,7 +75,7 @@ def expr_text(e, facts):
         t = chain[e['base'] % len(chain)]
         if f['kind'] == 'attribute':
             return '%s instance of attribute(*, %s)' % (f['path'], t)
-        return '%s instance of element(*, %s)' % (f['path'], t)
+        return '%s instance of element(*, %s%s)' % (f['path'], t, '?' if f.get('nil') else '')
     kind = G.TYPES[f['type']][1]
     if kind in ('int', 'Decimal', 'float'):
         return '%s + 1' % f['path']
@@ -125,7 +130,13 @@ def evaluate(text, tree, proxy, via):
         if proxy is not None:
             pk['schema'] = proxy
         s = elementpath.Selector(text, parser=XPath31Parser, **pk)
-        return s.select(tree['root'], namespaces=NSMAP) if proxy is None else s.select(tree['root'], namespaces=NSMAP)
+        return s.select(tree['root'], namespaces=NSMAP)
+    if via == 'selector-iter':
+        pk = dict(kw)
+        if proxy is not None:
+            pk['schema'] = proxy
+        s = elementpath.Selector(text, parser=XPath31Parser, **pk)
+        return list(s.iter_select(tree['root'], namespaces=NSMAP))
     if proxy is not None:
         return elementpath.select(tree['root'], text, parser=XPath31Parser, schema=proxy, **kw)
     return elementpath.select(tree['root'], text, parser=XPath31Parser, **kw)
@@ -169,6 +180,9 @@ def same_value(v, d):
             return False
     if isinstance(d, float):
         return isinstance(v, float) and (v == d or (math.isnan(v) and math.isnan(d)))
+    if hasattr(d, 'tzinfo') and hasattr(d, 'year'):
+        # date/time values: XSD 1.0 and 1.1 classes count years differently, the class must be the same too
+        return type(v) is type(d) and str(v) == str(d) and v == d
     return str(v) == str(d)
 
 
@@ -184,11 +198,12 @@ def run_case(case, world):
     late = cfg.get('late_build')
     built = [late is None]
     try:
-        check_a = xmlschema.XMLSchema(G.render_schema(cfg['spec'], 'A'))
-        schema_b = xmlschema.XMLSchema(G.render_schema(cfg['spec'], 'B'))
+        schema_class = xmlschema.XMLSchema11 if cfg['spec'].get('xsd11') else xmlschema.XMLSchema
+        check_a = schema_class(G.render_schema(cfg['spec'], 'A'))
+        schema_b = schema_class(G.render_schema(cfg['spec'], 'B'))
         if not check_a.is_valid(cfg['xml']) or not schema_b.is_valid(cfg['xml']):
             return {'violations': [], 'stats': stats, 'nontrivial': [], 'skipped': 'instance not valid'}
-        schema_a = check_a if late is None else xmlschema.XMLSchema(G.render_schema(cfg['spec'], 'A'), build=False)
+        schema_a = check_a if late is None else schema_class(G.render_schema(cfg['spec'], 'A'), build=False)
     except Exception as e:
         return {'violations': [], 'stats': stats, 'nontrivial': [], 'harness_error': 'schema build: %r' % e}
     proxies = {'A': XMLSchemaProxy(schema_a), 'B': XMLSchemaProxy(schema_b), None: None}
@@ -209,8 +224,8 @@ def run_case(case, world):
             stats['clean_room_forks'] += 1
         return refs[key]
 
-    def xsd_type_of(sk, tkey):
-        if sk == 'B':
+    def xsd_type_of(sk, tkey, xsi=False):
+        if sk == 'B' and not xsi:
             tkey = G.SUPERTYPE[tkey]
         name = G.TYPES[tkey][0]
         pfx, local = name.split(':')
@@ -261,15 +276,32 @@ def run_case(case, world):
             violate('HISTORY_DEPENDENT', 'differs-from-clean-room:%s' % op['expr']['kind'],
                     '%s on tree %d (%s) with schema %s gave %r, a fresh tree and parser give %r' % (
                         text, ti, form, sk, outcome, ref), feats)
+        # (i-b) the entry points agree: a schema-bound Selector (select and iter_select) gives what select() gives
+        if op.get('via', 'select') != 'select' and outcome[0] == 'ok' and ref == outcome:
+            ref2 = ref_for(form, text, sk, 'select')
+            if ref2[0] == 'ok':
+                a = outcome[1] if isinstance(outcome[1], list) and (not outcome[1] or isinstance(outcome[1][0], list)) else [outcome[1]]
+                b = ref2[1] if isinstance(ref2[1], list) and (not ref2[1] or isinstance(ref2[1][0], list)) else [ref2[1]]
+                if a != b:
+                    violate('API_DIFFERS', 'selector-differs-from-select:%s' % op.get('via'),
+                            '%s with schema %s through %s gives %r, select() gives %r' % (text, sk, op.get('via'), a, b), feats)
         # (ii) typed values
         e = op['expr']
+        if sk is not None and e['kind'] == 'data' and outcome[0] == 'error' and ref == outcome and cfg['facts'] \
+                and (built[0] or sk != 'A'):
+            plain = ref_for(form, text, None, op.get('via', 'select'))
+            if plain[0] == 'ok':
+                f = cfg['facts'][e['fact'] % len(cfg['facts'])]
+                violate('TYPED_VALUE', 'typed-value-raises:%s' % f['type'],
+                        'data() of %s (%r, declared %s) raises %r on a valid instance' % (
+                            f['path'], f['lex'], G.TYPES[f['type']][0], outcome[:3]), feats + ['type:' + f['type']])
         if sk is not None and e['kind'] == 'data' and outcome[0] == 'ok' and cfg['facts'] and (built[0] or sk != 'A'):
             f = cfg['facts'][e['fact'] % len(cfg['facts'])]
-            tkey = f['type'] if sk == 'A' else G.SUPERTYPE[f['type']]
+            tkey = f['type'] if (sk == 'A' or f.get('xsi')) else G.SUPERTYPE[f['type']]
             kind = G.TYPES[tkey][1]
             stats['typed_value_checks'] += 1
             try:
-                decoded = xsd_type_of(sk, f['type']).decode(f['lex'])
+                decoded = [] if f.get('nil') else xsd_type_of(sk, f['type'], f.get('xsi')).decode(f['lex'])
             except Exception as ex:
                 decoded = None
                 world.event(('decode-failed', repr(ex)[:80]))
@@ -290,7 +322,7 @@ def run_case(case, world):
                                                                         [type(x).__name__ for x in items]), feats + extra)
         if sk == 'A' and built[0] and e['kind'] == 'instance' and cfg['facts'] and outcome[0] == 'ok' and ref == outcome:
             f = cfg['facts'][e['fact'] % len(cfg['facts'])]
-            if G.TYPES[f['type']][2] and outcome[1] != ['bool', True] and not f.get('simple_content'):
+            if G.TYPES[f['type']][2] and outcome[1] not in (['bool', True], [['bool', True]]) and not f.get('simple_content'):
                 extra = ['type:' + f['type']]
                 if f['type'] == 'smallInt' and 'xs:integer' in text:
                     # element(*, T) falls back to the class of the typed value, which is Decimal here
